@@ -16,7 +16,7 @@ ASSUMPTIONS = [
     "delivery model: per-channel FIFO interleavings (sleep-set reduced) for A-Max-Sum on the pair; synchronous rounds for Max-Sum (canonical schedule: the mixin makes the round structure schedule-independent, which C08 checks)",
 ]
 BOUNDS = {
-    "quick": "the stability cut-off approx_match on symbolic cost messages (domain 2-3); single binary factor (pair), min and max, domain 2: Max-Sum 8 rounds (canonical schedule), A-Max-Sum all FIFO schedules up to 60 deliveries; pair with unary factor; chain of 4 variables (equality penalties pinned, two symbolic unary factors in [-8, 8], 24 rounds: longer than the stability window)",
+    "quick": "the stability cut-off approx_match on symbolic cost messages (domain 2-3); single binary factor (pair), min and max, domain 2: Max-Sum 8 rounds (canonical schedule), A-Max-Sum all FIFO schedules up to 60 deliveries; pair with unary factor; chains of 4 and 5 variables (equality penalties pinned, two symbolic unary factors in [-8, 8], 24-30 rounds: longer than the stability window)",
     "thorough": "quick + chain-3 (Max-Sum, 10 rounds, canonical schedule), star-3, pair with domain 3 (rational model), A-Max-Sum chain-3 canonical schedule, chain of 5 variables with pinned equality penalties (30 rounds)",
 }
 OUTSIDE = "more than 4 variables, cyclic graphs, float rounding at domain size 3, damping/noise other than 0"
@@ -42,7 +42,7 @@ def jobs(tier):
     eq = lambda names: {"%s_%d%d" % (c, i, j): (0 if i == j else 10) for c in names for i in range(2) for j in range(2)}
     out.append({"name": "maxsum-chain4u-eq-min", "algo": "maxsum", "rounds": 24, "fixed": True, "lim": 8,
                 "spec": spec("chain4_u", "min", pins=eq(["c12", "c23", "c34"]))})
-    if tier == "thorough":
+    if True:
         out.append({"name": "maxsum-chain5u-eq-min", "algo": "maxsum", "rounds": 30, "fixed": True, "lim": 8,
                     "spec": spec("chain5_u", "min", pins=eq(["c12", "c23", "c34", "c45"]))})
     for dom in (2, 3):
